@@ -39,6 +39,7 @@ func init() {
 	w := map[string]int{
 		"nextBlock": 30, "payFee": 14, "depositLST": 8, "delegate": 14, "undelegate": 6, "nativeDelegate": 3,
 		"associate": 3, "optIn": 3, "optOut": 2, "slash": 2, "setKey": 1,
+		"ethTx": 6, // Ethereum transactions: their fees reach the fee collector through the EVM's own deduction and refund
 	}
 	registerWorldProp(&WorldProp{
 		ID: "C17",
